@@ -31,7 +31,7 @@ def entry(x):
     return (x[0], x[1]) if isinstance(x, (list, tuple)) else (x, 0)
 
 
-def run_family(c, exe, hs, pred, rng, thorough, cplx_build=False):
+def run_family(c, exe, hs, pred, rng, thorough, cplx_build=False, ranks=0):
     betas = ["0.5", "3.0", "25.0"] if not cplx_build else ["0.5", "3.0"]
     NS = [-3, -1, 0, 2, 20]
     ZS = [["0.3", "1.7"], ["-1.5", "-0.2"]]
@@ -68,79 +68,94 @@ def run_family(c, exe, hs, pred, rng, thorough, cplx_build=False):
             qs.append({"q": "chi", "beta": b, "quads": [[im[x] for x in q] for q in quads], "triples": tri, "tables": False, "tag": b})
             qs.append({"q": "vertex", "beta": b, "quads": [[im[x] for x in q] for q in quads[:6]], "windows": [], "triples": tri, "tag": b})
         scen.append({"kind": "model", "id": hh["id"], "sites": lay, "den": 4, "build": build, "queries": qs, "_im": im, "_quads": quads})
-    recs, crashed = pv.run_driver_resilient(exe, [{k: v for k, v in s.items() if not k.startswith("_")} for s in scen], timeout=3000)
-    byid = {}
-    for r in recs:
-        if r.get("e") == "Q":
-            byid.setdefault(r["id"], []).append(r)
-    for sc in scen:
-        hh = [x for x in hs if x["id"] == sc["id"]][0]
-        p = pred[sc["id"]]
-        n = p["n"]
-        M = n
-        inv = {v: k for k, v in enumerate(sc["_im"])}
-        rep0 = {"h": hh["h"], "sites": sc["sites"], "build": sc["build"]}
-        if sc["id"] in crashed:
-            c.violation("library crashed on the quadratic model h=%s" % hh["h"], rep0, cls="crash")
-            continue
-
-        def G(i, j, z):
-            return poly(p["num"][i][j], z) / poly(p["det"], z)
-        ok_model = True
-        for r in byid.get(sc["id"], []):
-            beta = r.get("tag")
-            b = mp.mpf(beta)
-            rep = dict(rep0, beta=beta)
-            if "ex" in r or "fail" in r:
-                c.violation("h=%s beta=%s: %s failed: %s" % (hh["h"], beta, r["q"], r.get("fail") or r.get("ex")), rep, cls="exception")
-                ok_model = False
+    def judge(recs, crashed, scen, where):
+        byid = {}
+        for r in recs:
+            if r.get("e") == "Q":
+                byid.setdefault(r["id"], []).append(r)
+        for sc in scen:
+            hh = [x for x in hs if x["id"] == sc["id"]][0]
+            p = pred[sc["id"]]
+            n = p["n"]
+            M = n
+            inv = {v: k for k, v in enumerate(sc["_im"])}
+            rep0 = {"h": hh["h"], "sites": sc["sites"], "build": sc["build"]}
+            if where:
+                rep0["where"] = where.strip()
+            if sc["id"] in crashed:
+                c.violation("library crashed on the quadratic model h=%s" % hh["h"], rep0, cls="crash")
                 continue
-            if r["q"] == "gf":
-                for o in r["gf"]:
-                    i, j = inv[o["i"]], inv[o["j"]]
-                    for (kind, lst) in (("n", o["n"]), ("z", o["z"])):
-                        for (arg, v) in lst:
-                            z = exact.matsubara(beta, arg) if kind == "n" else mp.mpc(mp.mpf(arg[0]), mp.mpf(arg[1]))
-                            want = G(i, j, z)
+
+            def G(i, j, z):
+                return poly(p["num"][i][j], z) / poly(p["det"], z)
+            ok_model = True
+            for r in byid.get(sc["id"], []):
+                beta = r.get("tag")
+                b = mp.mpf(beta)
+                rep = dict(rep0, beta=beta)
+                if "ex" in r or "fail" in r:
+                    c.violation(("h=%s beta=%s" + where + ": %s failed: %s") % (hh["h"], beta, r["q"], r.get("fail") or r.get("ex")), rep, cls="exception")
+                    ok_model = False
+                    continue
+                if r["q"] == "gf":
+                    for o in r["gf"]:
+                        i, j = inv[o["i"]], inv[o["j"]]
+                        for (kind, lst) in (("n", o["n"]), ("z", o["z"])):
+                            for (arg, v) in lst:
+                                z = exact.matsubara(beta, arg) if kind == "n" else mp.mpc(mp.mpf(arg[0]), mp.mpf(arg[1]))
+                                want = G(i, j, z)
+                                got = exact.cplx(v)
+                                tol = 1e-9 * (abs(want) + 1) + (4 ** M) * 1e-8 / abs(z.imag)
+                                c.evaluations += 1
+                                if not (abs(got - want) <= tol):
+                                    c.violation(("h=%s beta=%s" + where + ": G_%d%d(%s) = %s but (z-h)^-1 gives %s") % (hh["h"], beta, o["i"], o["j"], arg, mp.nstr(got, 12), mp.nstr(want, 12)),
+                                                dict(rep, component=[o["i"], o["j"]], arg=arg), cls="propagator")
+                                    ok_model = False
+                elif r["q"] == "chi":
+                    for o in r["chi"]:
+                        i, j, k, l = [inv[x] for x in o["q"]]
+                        for t, v in zip(tri, o["ondemand"]):
+                            n1, n2, n3 = t
+                            z1, z2 = exact.matsubara(beta, n1), exact.matsubara(beta, n2)
+                            want = mp.mpc(0)
+                            if n2 == n3:
+                                want += b * G(i, l, z1) * G(j, k, z2)
+                            if n1 == n3:
+                                want -= b * G(i, k, z1) * G(j, l, z2)
                             got = exact.cplx(v)
-                            tol = 1e-9 * (abs(want) + 1) + (4 ** M) * 1e-8 / abs(z.imag)
                             c.evaluations += 1
+                            tol = 1e-7 * (1 + b * b)
                             if not (abs(got - want) <= tol):
-                                c.violation("h=%s beta=%s: G_%d%d(%s) = %s but (z-h)^-1 gives %s" % (hh["h"], beta, o["i"], o["j"], arg, mp.nstr(got, 12), mp.nstr(want, 12)),
-                                            dict(rep, component=[o["i"], o["j"]], arg=arg), cls="propagator")
+                                c.violation(("h=%s beta=%s" + where + ": chi_%s%s = %s but the antisymmetrised product of free propagators is %s") % (
+                                    hh["h"], beta, o["q"], t, mp.nstr(got, 12), mp.nstr(want, 12)), dict(rep, quad=o["q"], triple=t), cls="wick")
                                 ok_model = False
-            elif r["q"] == "chi":
-                for o in r["chi"]:
-                    i, j, k, l = [inv[x] for x in o["q"]]
-                    for t, v in zip(tri, o["ondemand"]):
-                        n1, n2, n3 = t
-                        z1, z2 = exact.matsubara(beta, n1), exact.matsubara(beta, n2)
-                        want = mp.mpc(0)
-                        if n2 == n3:
-                            want += b * G(i, l, z1) * G(j, k, z2)
-                        if n1 == n3:
-                            want -= b * G(i, k, z1) * G(j, l, z2)
-                        got = exact.cplx(v)
-                        c.evaluations += 1
-                        tol = 1e-7 * (1 + b * b)
-                        if not (abs(got - want) <= tol):
-                            c.violation("h=%s beta=%s: chi_%s%s = %s but the antisymmetrised product of free propagators is %s" % (
-                                hh["h"], beta, o["q"], t, mp.nstr(got, 12), mp.nstr(want, 12)), dict(rep, quad=o["q"], triple=t), cls="wick")
-                            ok_model = False
-                            break
-                    if abs(want) > 0 or True:
-                        c.nontriv("%s %s" % (sc["id"], (i, j, k, l)))
-            elif r["q"] == "vertex":
-                for o in r["vertex"]:
-                    for vv in o["values"]:
-                        got = exact.cplx(vv["value"])
-                        c.evaluations += 1
-                        if not (abs(got) <= 1e-7 * (1 + b * b)):
-                            c.violation("h=%s beta=%s: vertex of %s at %s is %s, expected 0" % (hh["h"], beta, o["q"], vv["t"], mp.nstr(got, 12)), dict(rep, quad=o["q"], triple=vv["t"]), cls="vertex")
-                            ok_model = False
-                            break
-        if ok_model:
-            c.traces += 1
+                                break
+                        if abs(want) > 0 or True:
+                            c.nontriv("%s %s" % (sc["id"], (i, j, k, l)))
+                elif r["q"] == "vertex":
+                    for o in r["vertex"]:
+                        for vv in o["values"]:
+                            got = exact.cplx(vv["value"])
+                            c.evaluations += 1
+                            if not (abs(got) <= 1e-7 * (1 + b * b)):
+                                c.violation(("h=%s beta=%s" + where + ": vertex of %s at %s is %s, expected 0") % (hh["h"], beta, o["q"], vv["t"], mp.nstr(got, 12)), dict(rep, quad=o["q"], triple=vv["t"]), cls="vertex")
+                                ok_model = False
+                                break
+            if ok_model:
+                c.traces += 1
+
+    recs, crashed = pv.run_driver_resilient(exe, [{k: v for k, v in s.items() if not k.startswith("_")} for s in scen], timeout=3000)
+    judge(recs, crashed, scen, "")
+    if ranks:
+        # several ranks: the parts of chi are computed by different ranks and their terms exchanged afterwards; every rank must hold the
+        # complete, correct object (on-demand evaluation from the terms after compute(clear = false))
+        sub = [s for s in scen if len(s["_im"]) <= 3][:6] + [s for s in scen if len(s["_im"]) == 4][:2]
+        per, done, rc, err = pv.run_driver_ranks(exe, [{k: v for k, v in s.items() if not k.startswith("_")} for s in sub], ranks, timeout=1500)
+        c.extra.setdefault("rank_tier", []).append({"ranks": ranks, "scenarios": len(sub)})
+        if min(done) < len(sub):
+            c.violation("%d ranks: the run did not complete (rc=%s): %s" % (ranks, rc, err[-300:].replace("\n", " | ")), {"ranks": ranks, "scenario": {k: v for k, v in sub[min(min(done), len(sub) - 1)].items() if not k.startswith("_")}}, cls="ranks:termination")
+        for rk in range(ranks):
+            judge(per[rk], set(), sub, " [rank %d of %d]" % (rk, ranks))
 
 
 def main():
@@ -174,7 +189,7 @@ def main():
         pv.log("INFRA: Wick.tla identity fails: %s" % res.violated)
         sys.exit(2)
     pred = {p["id"]: p for p in res.pv}
-    run_family(c, exe, hs, pred, rng, thorough)
+    run_family(c, exe, hs, pred, rng, thorough, ranks=3)
     # complex-Hermitian h in the complex matrix-element build (WickC.tla: the same recursion over Gaussian integers)
     chs = [{"id": "ch0", "h": [[[1, 0], [1, 2]], [[1, -2], [-1, 0]]]}, {"id": "ch1", "h": [[[0, 0], [0, 1]], [[0, -1], [0, 0]]]},
            {"id": "ch2", "h": [[[0, 0], [0, 1], [0, 0]], [[0, -1], [1, 0], [2, -1]], [[0, 0], [2, 1], [0, 0]]]},
